@@ -25,6 +25,14 @@ def tampers : List String := ["none", "blockNo", "slot", "prevHash", "issuer", "
 def tpraosOnly : List String := ["nonceProof", "nonceOut", "nonceProofLen", "nonceOutLen"]
 def ctxs : List String := ["ok", "prevslot", "prevslot+", "blockno", "nohash", "badhash", "reg", "regbad"]
 
+/-- header / block flavours: (TPraos layout?, number of body segments); "c"/"t" = babbage/shelley -/
+def eraOf (md : String) : Option (Bool × Nat) :=
+  match md with
+  | "t" | "shelley" | "allegra" | "mary" => some (true, 3)
+  | "alonzo" => some (true, 4)
+  | "c" | "babbage" | "conway" => some (false, 4)
+  | _ => none
+
 structure Built where
   P : Prims T
   f : Fields T
@@ -99,11 +107,13 @@ def handleHdr (impl : String) (toks : List String) : Out :=
     match parseNat? slot, parseNat? blockNo, parseNat? spk, parseNat? maxEvo, parseNat? ocPeriod,
           parseNat? kesT, parseNat? seq with
     | some slot, some blockNo, some spk, some maxEvo, some ocPeriod, some kesT, some seq =>
-      if (md ≠ "c" ∧ md ≠ "t") ∨ kesT > 63 ∨ slot = 0 ∨ slot ≥ 2 ^ 62 ∨ blockNo = 0 ∨
+      match eraOf md with
+      | none => badOp
+      | some (tp, _) =>
+      if kesT > 63 ∨ slot = 0 ∨ slot ≥ 2 ^ 62 ∨ blockNo = 0 ∨
          blockNo ≥ 2 ^ 64 ∨ spk ≥ 2 ^ 64 ∨ maxEvo ≥ 2 ^ 64 ∨ ocPeriod ≥ 2 ^ 32 ∨ seq ≥ 2 ^ 32 ∨
          !tampers.contains tamper ∨ !ctxs.contains ctx ∨
-         (md = "c" ∧ tpraosOnly.contains tamper) then badOp else
-      let tp := md == "t"
+         (!tp ∧ tpraosOnly.contains tamper) then badOp else
       let lead := impl.startsWith "lead=1"
       if impl.startsWith "lead=0" then { model := "lead=0 notleader", spec := "*" } else
       match buildSym lead tp slot blockNo ocPeriod kesT seq 1234 (9, 1) (T.atom 3) with
@@ -142,7 +152,7 @@ def handleHdr (impl : String) (toks : List String) : Out :=
           else if ¬ inWindow then "lead=1 ser=1 valid=0 *"
           else if tampered then "lead=1 ser=1 valid=0 *"
           else if tamper ≠ "none" then "*"
-          else if signerAtSlot ∧ (ctx = "ok" ∨ ctx = "reg") then "lead=1 ser=1 valid=1 *"
+          else if signerAtSlot ∧ (ctx = "ok" ∨ ctx = "reg") then "lead=1 ser=1 valid=1 lkes=1 lopc=1 *"
           else "*"
         { model := model, spec := spec }
     | _, _, _, _, _, _, _ => badOp
@@ -153,23 +163,24 @@ def handleBlk (impl : String) (toks : List String) : Out :=
   | md :: _useed :: slot :: spk :: ocPeriod :: kesT :: tam =>
     match parseNat? slot, parseNat? spk, parseNat? ocPeriod, parseNat? kesT with
     | some slot, some spk, some ocPeriod, some kesT =>
-      if (md ≠ "c" ∧ md ≠ "t") ∨ kesT > 63 ∨ slot = 0 ∨ slot ≥ 2 ^ 62 ∨ spk = 0 ∨ spk ≥ 2 ^ 64 ∨
+      match eraOf md with
+      | none => badOp
+      | some (tp, nseg) =>
+      if kesT > 63 ∨ slot = 0 ∨ slot ≥ 2 ^ 62 ∨ spk = 0 ∨ spk ≥ 2 ^ 64 ∨
          ocPeriod ≥ 2 ^ 32 then badOp else
-      let tp := md == "t"
       -- tamper kind
       let kind : Option (String × Nat) := match tam with
-        | ["seg", i] => (parseNat? i).bind fun i => if i > 3 ∨ (tp ∧ i > 2) then none else some ("seg", i)
+        | ["seg", i] => (parseNat? i).bind fun i => if i ≥ nseg then none else some ("seg", i)
         | ["flip", o, b] => match parseNat? o, parseNat? b with
           | some _, some b => if b > 7 then none else some ("flip", 0)
           | _, _ => none
-        | [t] => if tampers.contains t ∧ ¬ (md = "c" ∧ tpraosOnly.contains t) then some (t, 0) else none
+        | [t] => if tampers.contains t ∧ ¬ (!tp ∧ tpraosOnly.contains t) then some (t, 0) else none
         | _ => none
       match kind with
       | none => badOp
       | some (tamper, _) =>
         let lead := impl.startsWith "lead=1"
         if impl.startsWith "lead=0" then { model := "lead=0 notleader", spec := "*" } else
-        let nseg := if tp then 3 else 4
         match buildSym lead tp slot 77 ocPeriod kesT 3 nseg (if tp then 2 else 8, 0) (T.segs 0) with
         | none => { model := "lead=0 notleader", spec := "*" }
         | some ⟨P, f, sig⟩ =>
